@@ -1,3 +1,4 @@
+//go:build verif
 // +build verif
 
 package raft
@@ -29,6 +30,7 @@ import (
 	"os"
 	"os/exec"
 	"path/filepath"
+	"runtime"
 	"sort"
 	"strings"
 	"sync"
@@ -358,6 +360,7 @@ func (t *liveTraces) install() func() {
 //     after a snapshot;
 //   - after a rejecting response next moves down by at least one;
 //   - match never decreases and never exceeds the last index sent.
+//
 // It returns "" if the skeleton accepts the trace.
 func liveAcceptTrace(start uint64, tr []liveStreamEvent) string {
 	next, match := start, uint64(0)
@@ -431,6 +434,7 @@ type liveResult struct {
 	Script    string   `json:"script"`
 	OK        bool     `json:"ok"`
 	Problem   string   `json:"problem,omitempty"`
+	Fact      string   `json:"fact,omitempty"` // decisive evidence that does not depend on timing ("key: description")
 	Streams   int      `json:"streams"`
 	Events    int      `json:"stream_events"`
 	Rejected  []string `json:"rejected_traces,omitempty"`
@@ -498,6 +502,67 @@ func liveScript(name string) (res liveResult) {
 		if err := c.start(ldr); err != nil {
 			return fail("restart: %v", err)
 		}
+	case "manyconns":
+		// a node that holds more inbound connections than any internal channel has slots (30 verified connections,
+		// as a large cluster or many pooled connections produce) is shut down
+		if err := put(1); err != nil {
+			return fail("update: %v", err)
+		}
+		ldr, _ := c.leader(5 * time.Second)
+		victim := up[0]
+		if victim == ldr {
+			victim = up[1]
+		}
+		var held []*conn
+		defer func() {
+			for _, hc := range held {
+				if hc.rwc != nil {
+					_ = hc.rwc.Close()
+				}
+			}
+		}()
+		for i := 0; i < 30; i++ {
+			hc, err := dial(c.net.dial, c.nodes[victim].addr, 5*time.Second)
+			if err != nil {
+				return fail("dial %d: %v", i, err)
+			}
+			resp := &identityResp{}
+			if err := hc.doRPC(&identityReq{req: req{src: ldr}, cid: 9, nid: victim}, resp, time.Now().Add(10*time.Second)); err != nil || resp.result != success {
+				return fail("handshake %d: %v %v", i, err, resp.result)
+			}
+			held = append(held, hc)
+		}
+		if err := put(1); err != nil {
+			return fail("update: %v", err)
+		}
+		nd := c.nodes[victim]
+		ctx, cancel := context.WithTimeout(context.Background(), 45*time.Second)
+		err := nd.r.Shutdown(ctx)
+		cancel()
+		if err != nil {
+			// not a verdict by itself (a slow machine): look for the fact - connection handlers blocked in a
+			// channel send that nobody will ever receive
+			buf := make([]byte, 4<<20)
+			buf = buf[:runtime.Stack(buf, true)]
+			blocked := 0
+			for _, g := range strings.Split(string(buf), "\n\n") {
+				if strings.Contains(g, "[chan send") && strings.Contains(g, "(*server).handleConn") {
+					blocked++
+				}
+			}
+			if blocked > 0 {
+				res.Fact = fmt.Sprintf("shutdown-blocked:handleConn-chan-send: Shutdown of node %d (30 inbound connections) did not return and %d connection handlers are blocked in a channel send after the raft loop has ended", victim, blocked)
+			}
+			return fail("shutdown of node %d: %v", victim, err)
+		}
+		<-nd.done
+		c.net.mu.Lock()
+		delete(c.net.listeners, nd.addr)
+		c.net.mu.Unlock()
+		_ = nd.lis.Close()
+		nd.r = nil
+		res.OK = true
+		return res
 	case "backlog":
 		// a follower is down while well over maxAppendEntries (64) entries are committed,
 		// then comes back: the pipeline ships the backlog in several chunks
@@ -598,7 +663,7 @@ func liveScript(name string) (res liveResult) {
 	return res
 }
 
-var liveScripts = []string{"basic", "restart", "backlog", "snap2"}
+var liveScripts = []string{"basic", "restart", "backlog", "snap2", "manyconns"}
 
 // liveMain: `vraft live [--rounds n]` runs all scripts and prints one JSON line per run.
 func liveMain(args []string) int {
@@ -643,6 +708,7 @@ func liveSupplement(run *vkRun, tier string) {
 		Note     string   `json:"note,omitempty"`
 		Runs     int      `json:"script_runs"`
 		Failed   []string `json:"failed,omitempty"`
+		Facts    []string `json:"facts,omitempty"`
 		Streams  int      `json:"streams"`
 		Events   int      `json:"stream_events"`
 		Rejected []string `json:"rejected_traces,omitempty"`
@@ -694,6 +760,9 @@ func liveSupplement(run *vkRun, tier string) {
 				continue
 			}
 			p.Runs++
+			if r.Fact != "" {
+				p.Facts = append(p.Facts, r.Fact)
+			}
 			p.Streams += r.Streams
 			p.Events += r.Events
 			p.Rejected = append(p.Rejected, r.Rejected...)
@@ -735,6 +804,10 @@ func liveSupplement(run *vkRun, tier string) {
 	run.Cov["driver_conformance"] = normal
 	if normal.Crashed != "" {
 		run.Violation("live:process-terminated:live-scripts", "a free-running script terminated its process: "+normal.Crashed, map[string]interface{}{"cmd": "vraft live"})
+	}
+	for _, f := range normal.Facts {
+		kv := strings.SplitN(f, ": ", 2)
+		run.Violation("live:"+kv[0], "free-running script: "+f, map[string]interface{}{"cmd": "vraft live --script manyconns"})
 	}
 	var undecided []string
 	for _, f := range normal.Failed {
